@@ -445,6 +445,11 @@ func (r *replayer) run() error {
 	if len(st) == 3 {
 		mu = st[1].M
 	}
+	for _, v := range []string{must, st[len(st)-1].MustDen} {
+		if v != "acc" && v != "rej" && v != "free" {
+			return fmt.Errorf("behaviour without a verdict (must=%q): generator and replayer out of step", v)
+		}
+	}
 	s := r.s
 	m := newStatement(s, pv)
 	pred, or := build(m.tree, pv.Wrap)
@@ -522,7 +527,7 @@ func (r *replayer) run() error {
 
 	// ---- interactive deniable prover with the clique protocol (2 or 3 participants)
 	if r.cfg.Deniable > 0 && mu.K != "name" && mu.K != "simAll" && mu.K != "replayCh" && core.Hash64(fmt.Sprint(r.cfg.Seed), "den", r.bh.raw)%uint64(r.cfg.Deniable) == 0 {
-		r.deniable(m, pred, choice, vtree, vpts, pv, mu, st[len(st)-1].MustDen, lay, id)
+		r.deniable(m, pred, choice, vtree, vpts, pv, mu, st[len(st)-1].MustDen, lay, id, traced)
 	}
 	return nil
 }
@@ -648,10 +653,11 @@ func (c *cnode) Random() kyber.XOF { return c.rnd }
 const keySize = 128 // proof/deniable.go: length of the randomness commitment that prefixes every prover message
 
 func (r *replayer) deniable(m *statement, pred proof.Predicate, choice map[proof.Predicate]int, vtree [][]rep, vpts map[string]kyber.Point,
-	pv Step, mu Mut, must string, lay layout, id string) {
+	pv Step, mu Mut, must string, lay layout, id string, traced bool) {
 	s := r.s
 	np := 2 + int(core.Hash64("np", r.bh.raw)%2)
 	nodes := make([]*cnode, np)
+	var drec *recorder
 	// participants 1.. prove knowledge of their own key (honest) and verify participant 0
 	B := s.Point().Base()
 	ys := make([]kyber.Scalar, np)
@@ -667,6 +673,12 @@ func (r *replayer) deniable(m *statement, pred proof.Predicate, choice map[proof
 		var prover proof.Prover
 		if i == 0 {
 			prover = pred.Prover(s, m.px, m.pts, choice)
+			if traced {
+				// the interactive prover makes the same context calls as the non-interactive one
+				drec = &recorder{role: "prover"}
+				inner := prover
+				prover = func(ctx proof.ProverContext) error { return inner(&recProver{ctx, drec}) }
+			}
 			kp := proof.Rep("Y", "y", "B")
 			vrfs[1] = kp.Verifier(s, map[string]kyber.Point{"B": B, "Y": Ys[1]})
 		} else {
@@ -770,6 +782,9 @@ func (r *replayer) deniable(m *statement, pred proof.Predicate, choice map[proof
 	if tamperFailed {
 		r.res.Skip("unwitnessed-mutation")
 		return
+	}
+	if drec != nil && len(nodes[0].errs) == np {
+		r.tr.emit(id+"/DP", pv, "prover", drec, nodes[0].errs[0] == nil)
 	}
 	r.res.Eval(id + "/deniable")
 	for j := 0; j < np; j++ {
